@@ -16,6 +16,8 @@ package guardiand
 //                                                processor stores an inbound signed VAA
 
 import (
+	"unsafe"
+	"reflect"
 	"context"
 	"crypto/sha256"
 	"encoding/base64"
@@ -523,6 +525,16 @@ func scRunScenario(base string, sc vhScenario) ([]scLine, error) {
 	r := &scRun{w: w, d: d, ctx: context.Background()}
 	r.rpc = publicrpc.NewPublicrpcServer(zap.NewNop(), d, common.NewGuardianSetState(nil), scGovChain, vaa.Address(ga))
 	r.admin = &nodePrivilegedService{db: d, logger: zap.NewNop(), governanceChainId: scGovChain, governanceEmitterAddress: vaa.Address(ga)}
+	// an admin service that knows the guardian set (should one ever have such a field): the five-key set of the world
+	if f := reflect.ValueOf(r.admin).Elem().FieldByName("gst"); f.IsValid() && f.Type() == reflect.TypeOf((*common.GuardianSetState)(nil)) {
+		gst := common.NewGuardianSetState(nil)
+		gs := &common.GuardianSet{Index: 0}
+		for _, n := range shSetNames {
+			gs.Keys = append(gs.Keys, w.keys.Addr(n))
+		}
+		gst.Set(gs)
+		reflect.NewAt(f.Type(), unsafe.Pointer(f.UnsafeAddr())).Elem().Set(reflect.ValueOf(gst))
+	}
 	r.log("Reset", map[string]interface{}{"ids": []interface{}{}}, nil)
 	for _, st := range sc.Steps {
 		switch st.Ev {
